@@ -1038,7 +1038,7 @@ func scTransfer(d *Driver) {
 	t := d.pick(oth)
 	d.propose(l, 1+d.r.Intn(2), false)
 	d.settle(30)
-	if len(oth) >= 2 && pct(d.r, 35) {
+	if len(oth) >= 2 && pct(d.r, 50) {
 		// a transfer to a lagging node is pending while an automatically-left joint change commits
 		// and is applied; the transfer is never completed and ends by its timeout
 		var x uint64
